@@ -217,6 +217,29 @@ def gen(ctx, twinenc=None):
                json.dumps({"Version": "1.0", "Sid": "", "Answer": "a"}).encode(), b"garbage", json.dumps({"Version": "1.0", "Sid": 5, "Answer": "a"}).encode()]
     for b in abodies:
         add("answer", http_req("POST", "/answer", b), "answer", b, info=dict(ep="answer"))
+    # Version strings from a small grammar x otherwise valid bodies, on /proxy, /answer, /client: no version string, however
+    # malformed (no dot, empty minor, non-numeric parts, leading zero / space, very long), may cost the response. All
+    # outcomes are immediate: the polls carry a relay pattern the broker rejects (answered at once when the version is
+    # accepted), the answers name an unknown session, the clients find no proxy.
+    versions = ["", "1", "1.", "1.0", "1.3", "1.10", "2", "2.0", "1.x", "01.0", " 1.0", "1.0 ", ".", ".1", "1..", "1.0.0", "1.-1", "-1.0", "1e0",
+                "1." + "9" * 3000, "1" + "0" * 3000, "\u0661.0", "1\u00000", "1.0\n"]
+    for v in versions:
+        for extra in ([{}] if ctx.tier == "quick" else [{}, {"Extra": 1}]):
+            b = json.dumps(dict({"Sid": "vg", "Version": v, "Type": "standalone", "NAT": "unknown", "Clients": 0, "AcceptedRelayPattern": "^x$"}, **extra)).encode()
+            add("version-grammar-proxy", http_req("POST", "/proxy", b), "proxy", b, info=dict(ep="proxy"))
+            b = json.dumps(dict({"Version": v, "Sid": "nosuch-vg", "Answer": "a"}, **extra)).encode()
+            add("version-grammar-answer", http_req("POST", "/answer", b), "answer", b, info=dict(ep="answer"))
+        if "\n" not in v[:-1] or v.endswith("\n"):
+            b = client_body("o", nat="restricted", fp=FP, version=v)
+            add("version-grammar-client", http_req("POST", "/client", b), "client", b, info=dict(ep="client", legacy=0))
+    for vjson in [b"1", b"1.0", b"null", b"[\"1.0\"]", b"{}", b"true"]:       # a Version member that is not a JSON string
+        b = b'{"Sid":"vg","Version":' + vjson + b',"Type":"standalone","NAT":"unknown","Clients":0,"AcceptedRelayPattern":"^x$"}'
+        add("version-grammar-proxy", http_req("POST", "/proxy", b), "proxy", b, info=dict(ep="proxy"))
+        b = b'{"Version":' + vjson + b',"Sid":"nosuch-vg","Answer":"a"}'
+        add("version-grammar-answer", http_req("POST", "/answer", b), "answer", b, info=dict(ep="answer"))
+    for b in [json.dumps({"Sid": "vg", "Type": "standalone", "NAT": "unknown", "Clients": 0}).encode(), json.dumps({"Sid": "nosuch-vg", "Answer": "a"}).encode()]:
+        add("version-grammar-proxy", http_req("POST", "/proxy", b), "proxy", b, info=dict(ep="proxy"))      # no Version member at all
+        add("version-grammar-answer", http_req("POST", "/answer", b), "answer", b, info=dict(ep="answer"))
     # body sizes around the 100000 byte limit, all POST endpoints
     for ep, twin in [("/client", "client"), ("/proxy", "proxy"), ("/answer", "answer")]:
         for n in [99999, 100000, 100001, 250000] + ([1000000] if ctx.tier == "thorough" else []):
